@@ -41,8 +41,26 @@ class SD(AutoSerialize):
         return 1
 
 
+try:
+    import attrs as _attrs
+
+    @_attrs.define(slots=False, eq=False)
+    class AT(AutoSerialize):
+        """an attrs class (`__attrs_attrs__`): only the declared fields are items of `_recursive_save`; instance
+        attributes that are no fields are never written, with or without skip lists"""
+        count: object = 0
+        raw: object = None
+        child: object = None
+        note: object = "n"
+        w: object = None
+    ATTRS_FIELDS = [["AT", [f.name for f in AT.__attrs_attrs__]]]
+except Exception:  # noqa  (attrs not installed: the attrs stream is skipped with a note)
+    AT = None
+    ATTRS_FIELDS = []
+
+
 CLASS_LEVEL_NAMES = ["count", "note", "cfg", "gain", "total", "save", "print_tree"]
-CLASSES = dict(ser_classes.CLASSES, SD=SD)
+CLASSES = dict(ser_classes.CLASSES, SD=SD, **({'AT': AT} if AT is not None else {}))
 
 
 class Unpicklable:
@@ -177,7 +195,11 @@ def make_arg(rng, names, types, junk=False):
 def strip_live(obj, names, pytypes):
     """the graph the property requires, computed on the LIVE object with Python's own isinstance"""
     out = []
+    fields = getattr(type(obj), "__attrs_attrs__", None)
+    fields = None if fields is None else {f.name for f in fields}
     for k, v in vars(obj).items():
+        if fields is not None and k not in fields:
+            continue        # an attrs class: what is no declared field is never written, with or without skipping
         if k in names or (pytypes and isinstance(v, tuple(pytypes))):
             continue
         if isinstance(v, AutoSerialize):
@@ -273,3 +295,19 @@ def deep_tree(raw_at_root=False):
     if raw_at_root:
         root[2].insert(1, ["raw", ["scalar", S(5)]])
     return root
+
+
+def attrs_tree(variant=0):
+    """attrs-class objects (every declared field set) at the root, in the middle and at the bottom of an attribute-nested
+    graph, with plain classes in between; instance attributes that are no fields (`scratch`, `tmp`); `raw` at several
+    levels, a bool `count` next to int ones"""
+    S = sc.S
+    nd = ["nd", "float64", [2], [S(0.5), S(1.5)], "C"]
+    bottom = ["obj", "AT", [["count", ["scalar", S(True)]], ["raw", ["scalar", S(4)]], ["child", ["scalar", S(None)]], ["note", ["scalar", S("b")]],
+                            ["w", ["np", "float64", S(2.5)]], ["tmp", ["scalar", S(0)]]]]
+    mid = ["obj", "SB", [["raw", nd], ["deep", bottom], ["gain", ["scalar", S(2)]], ["lst", ["list", [["scalar", S("a")], ["scalar", S(1)]]]]]]
+    if variant == 1:
+        mid = ["obj", "AT", [["count", ["scalar", S(2)]], ["raw", nd], ["child", ["obj", "SD", [["deep", bottom], ["count", ["scalar", S(9)]]]]],
+                             ["note", ["scalar", S("m")]], ["w", ["scalar", S(0.5)]]]]
+    return ["obj", "AT", [["count", ["scalar", S(3)]], ["raw", ["scalar", S(1)]], ["scratch", ["scalar", S(99)]], ["child", mid],
+                          ["note", ["scalar", S("r")]], ["w", ["mk_tensor", "float32", [2], False, False, [1.5, 0.25]]]]]
